@@ -38,35 +38,53 @@ def obs_udecode(cls_name, content: bytes):
         return dict(k="udecode", cls=cls_name, content=list(content), outneg=True, out=[ord(c) for c in exc_name(e)])
 
 
+def _td(x):
+    """timedelta -> [days, seconds, microseconds]; anything else (None, an exception) -> a value no reference definition equals"""
+    return [x.days, x.seconds, x.microseconds] if isinstance(x, timedelta) else [-1, -1, -1]
+
+
+def _tk(fn):
+    try:
+        v = fn()
+    except Exception:  # noqa   total: a raising conversion is an observation the monitor rejects, not a harness failure
+        return [-1, -1]
+    return list(divmod(v, TPD)) if isinstance(v, int) and not isinstance(v, bool) else [-1, -1]
+
+
+def _try(fn):
+    try:
+        return fn()
+    except Exception:  # noqa
+        return None
+
+
 def obs_ticks(n):
     from puresnmp.types import TimeTicks
     out = []
     d, r = divmod(n, TPD)
-    td = TimeTicks(n).pythonize()
-    out.append(dict(k="ticks2delta", d=d, r=r, out=[td.days, td.seconds, td.microseconds]))
+    out.append(dict(k="ticks2delta", d=d, r=r, out=_td(_try(lambda: TimeTicks(n).pythonize()))))
     ref = timedelta(days=d, seconds=r // 100, microseconds=(r % 100) * 10000)     # constructed independently of the library
-    back = TimeTicks(ref).value
-    out.append(dict(k="delta2ticks", days=ref.days, secs=ref.seconds, micros=ref.microseconds, out=list(divmod(back, TPD)) if isinstance(back, int) else [-1, -1]))
-    rt = TimeTicks(TimeTicks(n).pythonize()).value
-    out.append(dict(k="ticksround", d=d, r=r, out=list(divmod(rt, TPD)) if isinstance(rt, int) else [-1, -1]))
+    out.append(dict(k="delta2ticks", days=ref.days, secs=ref.seconds, micros=ref.microseconds, out=_tk(lambda: TimeTicks(ref).value)))
+    out.append(dict(k="ticksround", d=d, r=r, out=_tk(lambda: TimeTicks(TimeTicks(n).pythonize()).value)))
     return out
 
 
 def obs_delta(days, secs, micros):
     from puresnmp.types import TimeTicks
-    v = TimeTicks(timedelta(days=days, seconds=secs, microseconds=micros)).value
-    return dict(k="delta2ticks", days=days, secs=secs, micros=micros, out=list(divmod(v, TPD)) if isinstance(v, int) else [-1, -1])
+    return dict(k="delta2ticks", days=days, secs=secs, micros=micros, out=_tk(lambda: TimeTicks(timedelta(days=days, seconds=secs, microseconds=micros)).value))
 
 
 def obs_ip(octets: bytes):
     import x690
     from puresnmp.types import IpAddress
     a = IPv4Address(bytes(octets))
-    obj = IpAddress(a)
-    enc = bytes(obj)
-    back, _ = x690.decode(enc)
-    return dict(k="ip", octets=list(octets), packed=list(enc[2:]), back=list(back.pythonize().packed) if hasattr(back.pythonize(), "packed") else [],
-                text=str(back.pythonize()), dotted=".".join(str(b) for b in octets))
+    try:
+        enc = bytes(IpAddress(a))
+        py = x690.decode(enc)[0].pythonize()
+        return dict(k="ip", octets=list(octets), packed=list(enc[2:]), back=list(py.packed) if hasattr(py, "packed") else [],
+                    text=str(py), dotted=".".join(str(b) for b in octets))
+    except Exception as e:  # noqa
+        return dict(k="ip", octets=list(octets), packed=[], back=[], text=exc_name(e), dotted=".".join(str(b) for b in octets))
 
 
 def obs_roundtrip(cls_name, v):
@@ -74,8 +92,10 @@ def obs_roundtrip(cls_name, v):
     import puresnmp.types as T
     from x690.types import Integer
     cls = Integer if cls_name == "Integer" else getattr(T, cls_name)
-    obj = cls(v)
-    enc = bytes(obj)
+    try:
+        enc = bytes(cls(v))
+    except Exception as e:  # noqa
+        return dict(k="roundtrip", kind=cls_name, val=canon_int(v), enc=[], back=[ord(c) for c in exc_name(e)])
     try:
         back, _ = x690.decode(enc)
         bv = val_or_repr(back.value) if type(back).__name__ == cls_name else [ord(c) for c in type(back).__name__]
